@@ -30,6 +30,7 @@ import os
 import re
 import types
 import warnings
+import zlib
 from abc import ABC, abstractmethod
 from contextlib import suppress
 from importlib.metadata import entry_points
@@ -327,7 +328,7 @@ class Reader(ABC):
             archive_header, header = cls.read_header(
                 filename, fileobj=fileobj)
             result = True
-        except (ReaderError, ValueError) as exception:
+        except (ReaderError, ValueError, EOFError, zlib.error) as exception:
             LOG.debug("%s failed to read the file! %s"
                       % (cls.__name__, repr(exception)))
             result = False
